@@ -22,6 +22,17 @@ use vcore::{Cfg, Value, json};
 pub enum Kind {
     Wide,
     Deep,
+    /// N is the number of `let`s that each mention the previous binding twice: the
+    /// type graph is a DAG with N nodes whose tree expansion has 2^N nodes, while every
+    /// value is one pointer (a list) or two pointers (a record of two lists) wide
+    Share,
+    /// N is a number of one-line declarations / statements linked into one chain
+    /// (nesting depth <= 2): the property bounds the nesting depth, not the length.
+    /// Count bound of the check: 1 000 (quick) / 10 000 (thorough). An audit of
+    /// /repo@eccd345 measured stack overflows beyond it: 30 000 chained functions
+    /// (Tarjan `strongly_connect`; 3 000 in a 2 MiB thread), 20 000 chained records
+    /// (`TypeInfo::convert`), 150 000 chained unifications (`UnionFind::find`).
+    Count,
 }
 
 /// counts for `Wide` repeaters; 255/256/257 are the limits of a one-byte
@@ -29,6 +40,10 @@ pub enum Kind {
 const WIDTHS_QUICK: [usize; 14] = [1, 2, 3, 5, 8, 13, 21, 34, 55, 128, 255, 256, 257, 300];
 const WIDTHS_THOROUGH: [usize; 20] =
     [1, 2, 3, 4, 5, 6, 8, 10, 13, 16, 21, 34, 55, 89, 128, 255, 256, 257, 300, 1000];
+const SHARES_QUICK: [usize; 7] = [1, 2, 3, 5, 8, 12, 24];
+const SHARES_THOROUGH: [usize; 11] = [1, 2, 3, 4, 5, 8, 10, 12, 16, 24, 40];
+const COUNTS_QUICK: [usize; 1] = [1000];
+const COUNTS_THOROUGH: [usize; 2] = [1000, 10000];
 const DEPTHS_QUICK: [usize; 8] = [1, 2, 3, 5, 8, 13, 21, 34];
 const DEPTHS_THOROUGH: [usize; 11] = [1, 2, 3, 4, 5, 8, 13, 21, 34, 55, 64];
 
@@ -234,6 +249,48 @@ pub const REPEATERS: &[(&str, Kind, bool, Gen)] = &[
     ("wide:whiles", Kind::Wide, true, |n| {
         format!("fn f(k: i32) -> i32 {{ let i = 0; {} i }}", rep(n, " ", |_| "while i < k { i = i + 1; }".into()))
     }),
+    // ---- a type shared by two fields, N times (every value stays one or two pointers wide)
+    ("share:list-of-record", Kind::Share, true, |n| {
+        format!("fn f() -> i32 {{ let a0 = [1]; {} a{n}.len(); 1 }}", rep(n, " ", |i| format!("let a{} = [{{ l: a{i}, r: a{i} }}];", i + 1)))
+    }),
+    ("share:record-of-lists", Kind::Share, true, |n| {
+        format!("fn f() -> i32 {{ let a0 = 1; {} 1 }}", rep(n, " ", |i| format!("let a{} = {{ l: [a{i}], r: [a{i}] }};", i + 1)))
+    }),
+    ("share:list-of-option-of-record", Kind::Share, true, |n| {
+        format!("fn f() -> i32 {{ let a0 = [1]; {} 1 }}", rep(n, " ", |i| format!("let a{} = [Option.Some({{ l: a{i}, r: a{i} }})];", i + 1)))
+    }),
+    ("share:generic-record-of-lists", Kind::Share, true, |n| {
+        format!(
+            "record P[T] {{ l: List[T], r: List[T] }}\nfn f() -> i32 {{ let a0 = 1; {} 1 }}",
+            rep(n, " ", |i| format!("let a{} = P {{ l: [a{i}], r: [a{i}] }};", i + 1))
+        )
+    }),
+    ("share:list-of-record-ill-typed-last-line", Kind::Share, false, |n| {
+        format!("fn f() -> i32 {{ let a0 = [1]; {} a{n} + 1 }}", rep(n, " ", |i| format!("let a{} = [{{ l: a{i}, r: a{i} }}];", i + 1)))
+    }),
+    ("share:record-of-lists-ill-typed-last-line", Kind::Share, false, |n| {
+        format!("fn f() -> i32 {{ let a0 = 1; {} a{n} + 1 }}", rep(n, " ", |i| format!("let a{} = {{ l: [a{i}], r: [a{i}] }};", i + 1)))
+    }),
+    // ---- long chains of one-line declarations / statements (no nesting)
+    ("count:function-calls-next", Kind::Count, true, |n| {
+        format!("{}\nfn f{n}() -> i32 {{ 1 }}", rep(n, "\n", |i| format!("fn f{i}() -> i32 {{ f{}() }}", i + 1)))
+    }),
+    ("count:record-contains-next", Kind::Count, true, |n| {
+        format!("{}\nrecord R{n} {{ x: i32 }}\nfn f(r: R0?) {{ }}", rep(n, "\n", |i| format!("record R{i} {{ x: R{} }}", i + 1)))
+    }),
+    ("count:constant-reads-next", Kind::Count, true, |n| {
+        format!("{}\nconst K{n}: i32 = 1;", rep(n, "\n", |i| format!("const K{i}: i32 = K{};", i + 1)))
+    }),
+    ("count:unify-with-next", Kind::Count, true, |n| {
+        format!(
+            "fn f() {{ {} {} l0.push(1); }}",
+            rep(n + 1, " ", |i| format!("let l{i} = [];")),
+            rep(n, " ", |i| format!("l{i} == l{};", i + 1))
+        )
+    }),
+    ("count:enum-payload-is-next", Kind::Count, true, |n| {
+        format!("{}\nenum E{n} {{ A }}\nfn f(e: E0?) {{ }}", rep(n, "\n", |i| format!("enum E{i} {{ A(E{}), B }}", i + 1)))
+    }),
     // ---- long lexical items
     ("long:identifier", Kind::Wide, true, |n| format!("fn f() -> i32 {{ let {0} = 1; {0} }}", "a".repeat(n))),
     ("long:string", Kind::Wide, true, |n| format!("fn f() -> String {{ \"{}\" }}", "é".repeat(n))),
@@ -260,6 +317,10 @@ fn sizes(cfg: &Cfg, k: Kind) -> &'static [usize] {
         (Kind::Wide, vcore::Tier::Thorough) => &WIDTHS_THOROUGH,
         (Kind::Deep, vcore::Tier::Quick) => &DEPTHS_QUICK,
         (Kind::Deep, vcore::Tier::Thorough) => &DEPTHS_THOROUGH,
+        (Kind::Share, vcore::Tier::Quick) => &SHARES_QUICK,
+        (Kind::Share, vcore::Tier::Thorough) => &SHARES_THOROUGH,
+        (Kind::Count, vcore::Tier::Quick) => &COUNTS_QUICK,
+        (Kind::Count, vcore::Tier::Thorough) => &COUNTS_THOROUGH,
     }
 }
 
@@ -295,6 +356,9 @@ pub fn bounds(cfg: &Cfg) -> Value {
         "repeaters": REPEATERS.len(),
         "counts_for_wide_repeaters": sizes(cfg, Kind::Wide),
         "depths_for_deep_repeaters": sizes(cfg, Kind::Deep),
+        "lets_for_share_repeaters": sizes(cfg, Kind::Share),
+        "counts_for_count_repeaters": sizes(cfg, Kind::Count),
+        "count_bound_note": "chains of one-line declarations are checked up to 1 000 (quick) / 10 000 (thorough) links; longer chains overflow the 8 MiB stack (audit: 30 000 functions, 20 000 records, 150 000 unifications)",
         "per_input_cpu_cap_s": cpu_cap_s(cfg),
         "per_input_wall_backstop_s": WALL_BACKSTOP_S,
         "per_input_address_space_cap_bytes": AS_CAP,
